@@ -222,6 +222,42 @@ def check_main(rep, prog, main, algo, pos=False):
     for s in ex.string_literals(main.body):
         if not (s.value or '').startswith('MCB weight'):
             continue
+        # R11e: the weight is printed in the same number format for every option combination: no persistent floating-point manipulator
+        # (std::fixed / scientific / setprecision / precision()) is applied to the stream on an option-dependent path that reaches the print
+        whatf = 'the weight is printed in the same format for every option combination (no option-dependent sticky stream manipulator reaches the print)'
+        sticky = []
+        for d in main.walk():
+            nm = None
+            if d.k == 'DeclRefExpr' and d.j.get('fn') is not None:
+                fr_ = prog.frefs[d.j['fn']] if isinstance(d.j['fn'], int) and d.j['fn'] < len(prog.frefs) else None
+                if fr_ and fr_.get('g') in ('std::fixed', 'std::scientific', 'std::hexfloat', 'std::showpoint'):
+                    nm = fr_['g']
+            if d.k == 'CallExpr' and d.callee and d.callee['g'] in ('std::setprecision', 'std::setiosflags'):
+                nm = d.callee['g']
+            if d.k == 'CXXMemberCallExpr' and d.callee and d.callee['name'] in ('precision', 'setf') and d.args() and ex.is_std_stream(d.object_arg(), ('cout',)):
+                nm = 'cout.' + d.callee['name']
+            if nm is None:
+                continue
+            chain_root = d
+            for a_ in d.ancestors():
+                if a_.k == 'CXXOperatorCallExpr' and a_.op == '<<':
+                    chain_root = a_
+            root = ex.stream_root(chain_root) if chain_root is not d else None
+            if root is not None and not ex.is_std_stream(root, ('cout',)):
+                continue
+            if cfg.reaches(d, s) and not d.is_ancestor_of(s) and not (chain_root.is_ancestor_of(s)):
+                sticky.append((d, nm))
+        cond_sticky = [(d, nm) for (d, nm) in sticky if ex.ast_conditions(d)]
+        if cond_sticky:
+            d, nm = cond_sticky[0]
+            g_ = ex.ast_conditions(d)[0][0]
+            rep.violation('R11e', d, main, whatf, '%s is applied to std::cout only under `%s` and stays in force: with that option the weight is printed in another '
+                          'format (e.g. 0.000 for 0.00043), so the output is not identical for every option combination' % (nm, g_.text(40)),
+                          key='R11e|%s|sticky' % tu)
+        elif sticky:
+            rep.undecided('R11e', sticky[0][0], main, whatf, '%s changes the number format before the weight is printed' % sticky[0][1])
+        else:
+            rep.ok('R11e', s, main, whatf, 'no floating-point manipulator reaches the print')
         p1 = s.enclosing('CXXOperatorCallExpr')
         p2 = p1.enclosing('CXXOperatorCallExpr') if p1 is not None else None
         whatw = 'the value printed after "MCB weight = " is the return value of a library entry point on every path'
@@ -267,6 +303,7 @@ def run(rep, tier):
     rep.rule('R11a', 'validators dominate algorithm calls; rejecting edge leads to non-zero exit with diagnostic', floor=12)
     rep.rule('R11b', 'MPI demo: gate and exits are rank-uniform', floor=4)
     rep.rule('R11c', 'success path returns 0 and prints an entry point\'s return value', floor=7)
+    rep.rule('R11e', 'the weight is printed in one number format for every option combination', floor=3)
     rep.rule('R11d', '--cores=0 ("all cores", a valid option value) never reaches the TBB knob as 0', floor=2)
     tus = env.demo_tus()
     if len(tus) < 4:
@@ -293,7 +330,7 @@ def run(rep, tier):
         c20.knob_zero(prep, pp20, m, 'R11d')
     rep.positive('R11d', 'witness/positive/c11_zero_cores.cc',
                  any(i.status == 'violation' and i.rule == 'R11d' for i in prep.instances.values()))
-    for r in ('R11a', 'R11b', 'R11c'):
+    for r in ('R11a', 'R11b', 'R11c', 'R11e'):
         rep.positive(r, 'witness/positive/c11_rank0_gate.cc',
                      any(i.status == 'violation' and i.rule == r for i in prep.instances.values()))
     rep.assume('tbb::global_control(max_allowed_parallelism, 0) aborts the process (oneTBB release assertion)')
